@@ -115,3 +115,26 @@ Definition bucket_view (b : list rule) : list (N * N * list str) :=
 Definition view_eqb (a b : list (N * N * list str)) : bool :=
   list_eqb (fun x y => N.eqb (fst (fst x)) (fst (fst y)) && N.eqb (snd (fst x)) (snd (fst y))
                        && list_eqb str_eqb (snd x) (snd y)) a b.
+
+(* a whole dumped list against a model list: same keys, same (id, mask, patterns) per bucket *)
+Definition fmap_views_eqb (m : fmap) (views : list (N * list (N * N * list str))) : bool :=
+  forallb (fun kv => view_eqb (bucket_view (bucket m (fst kv))) (snd kv)) views
+  && Nat.eqb (length views) (length m).
+(* Blocker::optimize on a dumped blocker (eight lists) against the eight dumped lists afterwards *)
+Definition blocker_views_eqb (b : blocker) (vs : list (list (N * list (N * N * list str)))) : bool :=
+  match vs with
+  | [v1; v2; v3; v4; v5; v6; v7; v8] =>
+      fmap_views_eqb (b_csp b) v1 && fmap_views_eqb (b_exceptions b) v2
+      && fmap_views_eqb (b_importants b) v3 && fmap_views_eqb (b_redirects b) v4
+      && fmap_views_eqb (b_removeparam b) v5 && fmap_views_eqb (b_tagged b) v6
+      && fmap_views_eqb (b_filters b) v7 && fmap_views_eqb (b_generic_hide b) v8
+  | _ => false
+  end.
+Definition mkb (l : list fmap) : blocker :=
+  match l with
+  | [m1; m2; m3; m4; m5; m6; m7; m8] =>
+      {| b_csp := m1; b_exceptions := m2; b_importants := m3; b_redirects := m4; b_removeparam := m5;
+         b_tagged := m6; b_filters := m7; b_generic_hide := m8; b_tags := []; b_tagged_all := [] |}
+  | _ => {| b_csp := []; b_exceptions := []; b_importants := []; b_redirects := []; b_removeparam := [];
+            b_tagged := []; b_filters := []; b_generic_hide := []; b_tags := []; b_tagged_all := [] |}
+  end.
